@@ -225,12 +225,24 @@ func (l *Lexer) nextInsideToken() token.Token {
 	return tok
 }
 
-// SkipComment discards the text of the comment tag opened by the most recent
-// C_START token, whatever it contains, and returns the E_END token closing it
-// (or EOF when the comment is not terminated). A comment is not code, so
-// quotes, backticks and '#' inside it must not be tokenized.
-func (l *Lexer) SkipComment() token.Token {
-	l.readPosition, l.curLine = l.commentPos, l.commentLine
+// CommentStart tells where the body of a comment tag begins.
+type CommentStart struct {
+	pos  int
+	line int
+}
+
+// LastComment returns the start of the comment tag opened by the most recently
+// lexed C_START token; ask for it right after receiving that token.
+func (l *Lexer) LastComment() CommentStart {
+	return CommentStart{pos: l.commentPos, line: l.commentLine}
+}
+
+// SkipComment discards the text of the comment tag that begins at c, whatever
+// it contains, and returns the E_END token closing it (or EOF when the comment
+// is not terminated). A comment is not code, so quotes, backticks and '#'
+// inside it must not be tokenized.
+func (l *Lexer) SkipComment(c CommentStart) token.Token {
+	l.readPosition, l.curLine = c.pos, c.line
 	l.readChar()
 
 	for l.ch != 0 && !(l.ch == '%' && l.peekChar() == '>') {
